@@ -292,6 +292,6 @@ PROPS = {
             "hook random::verif_size (cfg candid_verif) returns size() unchanged",
         ],
         "assumptions": ["an error is an admissible answer (the property allows it); which inhabited types get an error (e.g. recursion limit on variants whose every alternative is recursive) is counted in the evidence, not judged"],
-        "partial": ["that returned values inhabit the requested types is established on the generated calls (implementation oracle + model typing relation); theorems: selection never returns a zero-weight alternative and succeeds when a weight is positive, inhabited alternatives keep weight, spent budget keeps only the smallest inhabited alternatives and makes opt null, number bounds, size 0 only for empty, selected alternative is typed. Termination within the configured depth is an oracle on the generated calls; it fails for variants all of whose alternatives are recursive (known finding KF-C20-recursive-alternatives)"],
+        "partial": ["that returned values inhabit the requested types is established on the generated calls (implementation oracle + model typing relation); theorems: selection never returns a zero-weight alternative and succeeds when a weight is positive, inhabited alternatives keep weight, spent budget keeps only the smallest inhabited alternatives and makes opt null, number bounds, size 0 only for empty, selected alternative is typed. Termination within the configured depth is an oracle on the generated calls; it fails for variants all of whose alternatives are recursive (known finding KF-C20-recursive-alternatives; on the mirror: theorem spent_budget_keeps_recursive_alternatives)"],
     },
 }
